@@ -503,6 +503,9 @@ class Registry:
                 return res
             return self.call_method(eng, st, inner, attr, args, kwargs, node, is_property, recv_expr)
         fam = self.family_of(recv)
+        rx = recv_expr if recv_expr is not None else (node.value if isinstance(node, ast.Attribute) else None)
+        if isinstance(rx, ast.Name) and rx.id == "self" and eng.cls and not eng.spec:
+            fam = eng.cls  # dynamic class of self is the class under verification
         if fam is None:
             raise OutOfSubset(f"method {attr} on {recv.t} (line {getattr(node, 'lineno', '?')})")
         c = self.lookup_method(fam, attr)
